@@ -38,7 +38,6 @@ package oauth
 //@ func (*authzServer).validateIssuer
 //@   prop C17
 //@   requires vContext != nil && !isNilIface(vContext.jwtBearerToken)
-//@   loop 1 invariant true
 //@   call (resolver.KeyResolver).ResolveKeyByID #1 requires [signing-key-is-a-key-of-the-issuer]
 //@        isNilIface(ret(call did.ParseDID #1).1) && arg(call did.ParseDID #1, 0) == vContext.jwtBearerToken.Issuer()
 //@        && isNilIface(ret(call did.ParseDIDURL #1).1) && arg(call did.ParseDIDURL #1, 0) == vContext.kid
